@@ -17,7 +17,7 @@ PROPS_MODULE = "NumbersModel.Props.C01"
 THEOREMS = [f"NumbersModel.Props.C01.{t}" for t in (
     "d128_roundtrip", "d128_pack_total", "d128_pack_injective", "cell_roundtrip", "number_cell_roundtrip",
     "row_offsets_fit_int16", "row_roundtrip", "tiles_cover", "tiles_bounded", "tiles_count",
-    "seconds_payload_roundtrip_partial")]
+    "table_roundtrip", "table_saved_shape", "seconds_payload_roundtrip_partial")]
 PARTIAL = {
     "NumbersModel.Props.C01.seconds_payload_roundtrip_partial":
         "date / duration / bool payloads are 8 opaque bytes in the model: the theorem only states that the bytes written "
@@ -27,26 +27,49 @@ PARTIAL = {
 RULE = ("component level: every value of the exhaustive sub-ranges (ints 0..N, 2-decimal prices, k*10^e grid) and seeded "
         "<=15-digit decimals through the real _pack_decimal128/_unpack_decimal128 vs the Lean pack/unpack; generated rows "
         "through the real recalculate_row_info / get_storage_buffers_for_row vs rowInfo/rowBuffers; tile split of real saved "
-        "documents vs tiles; end to end: ~2000 cells per document of every supported type at generated positions (incl. "
+        "documents vs tiles; whole table: the TST.Tile / TileRowInfo / string TableDataList objects read back from files "
+        "written by Document.save vs saveTable on the in-memory grid (every field, every byte), and Table.__init__ on those "
+        "files (and on the same objects after edits in the object store: dropped row-infos / records / strings, larger "
+        "declared size, tile_size 0, pre-BNC tile) vs loadTable; end to end: ~2000 cells per document of every supported type at generated positions (incl. "
         "beyond the initial bounds, >256 rows, >256 columns), saved, reopened, compared exactly; a case is non-trivial if "
         "it is a distinct value / row / (document, cell)")
 MANIFEST = {
-    "text": "Core proved, glue assumed: d128_roundtrip (unpack(pack(sign, coeff, exp)) = (sign, coeff, exp) for EVERY sign, "
-            "every coefficient < 2^113 and every exponent with 0 <= exp + 6176 < 2^14 - the whole decimal128 small-coefficient "
-            "format), d128_pack_injective, number_cell_roundtrip (triple -> payload -> cell record -> payload -> triple with all "
-            "ids carried, composing C04), row_roundtrip (reading a written row returns the "
-            "cell records for any number of columns, holes allowed), row_offsets_fit_int16 (<= MAX_COL_COUNT columns of C04-sized "
-            "records never overflow the int16 offset table), tiles_cover / tiles_bounded / tiles_count (the 256-row tile split "
-            "concatenates back to the table, any number of rows). The cell-record layer is C04's decode_encode. The models are "
-            "tied to _pack_decimal128/_unpack_decimal128/recalculate_row_info/get_storage_buffers_for_row/recalculate_table_data "
-            "by differential correspondence; the whole pipeline (Table.write -> Document.save -> Document(path) -> Cell.value) "
-            "is exercised by an exact-equality oracle on generated documents, which is exploration, not proof.",
+    "text": "Core proved, glue assumed: table_roundtrip - ONE theorem for the whole table write path and read path: for every "
+            "grid with >= 1 row, all rows of one width <= MAX_COL_COUNT, <= MAX_ROW_COUNT rows (any number of 256-row tiles), "
+            "any mix of number / currency / text / date / bool / duration / rich / empty cells with well-sized payloads and "
+            "int32 ids, merged placeholders as holes: loadTable (saveTable grid) returns the grid, cell by cell (class, payload "
+            "bytes, twelve ids, flag words, and for text cells the same string although every string key is re-assigned). "
+            "saveTable mirrors _NumbersModel.recalculate_table_data (string list reset, table_string_key/lookup_key per text "
+            "cell in row-major order, Cell._to_buffer, recalculate_row_info, 256-row tiles with tileid / tile_row_index, "
+            "number_of_rows / number_of_columns / tile_size), loadTable mirrors Table.__init__ (row_storage_map, storage_buffers "
+            "incl. the last_saved_in_BNC test, storage_buffer, get_storage_buffers_for_row, Cell._from_storage, table_string "
+            "through DataLists.add_table, Cell._empty_cell on EMPTY_STORAGE_BUFFER, merged placeholders). The row limit is what "
+            "makes every string key fit the int32 field (MAX_ROW_COUNT * MAX_COL_COUNT <= 2^31 - 1, re-decided against the "
+            "generated constants). Layer theorems it composes: d128_roundtrip (unpack(pack(sign, coeff, exp)) = (sign, coeff, "
+            "exp) for EVERY sign, every coefficient < 2^113 and every exponent with 0 <= exp + 6176 < 2^14 - the whole decimal128 "
+            "small-coefficient format), d128_pack_injective, number_cell_roundtrip (triple -> payload -> cell record -> payload -> "
+            "triple with all ids carried, composing C04), row_roundtrip, row_offsets_fit_int16 (<= MAX_COL_COUNT columns of "
+            "C04-sized records never overflow the int16 offset table), tiles_cover / tiles_bounded / tiles_count, "
+            "table_saved_shape (dimensions and ceil(rows/256) tiles). The models are tied to _pack_decimal128 / "
+            "_unpack_decimal128 / recalculate_row_info / get_storage_buffers_for_row / recalculate_table_data / Table.__init__ "
+            "by differential correspondence: the TST objects read back from files written by Document.save are compared field by "
+            "field and byte by byte with saveTable's output, the grids Document(path) reads with loadTable on those objects. The "
+            "path Table.write -> ... -> Cell.value (value <-> payload through decimal / struct / datetime, grid growth) is "
+            "exercised by an exact-equality oracle on generated documents, which is exploration, not proof.",
     "note": "assumed (exercised, not proved): float(repr-decimal) is the correctly rounded inverse of str(float) for <= 15 (in fact "
             "<= 17) significant digits; decimal.Context(prec=34).create_decimal(str(x)) is exact for such x; struct '<d' is "
             "bijective; timedelta(seconds=float) / total_seconds() invert each other at microsecond resolution within +-100 years "
-            "(and EPOCH + timedelta for the date domain); protobuf / snappy / zip round-trip (C05). Not modelled: string data "
-            "list, row_storage_map, Table.__init__ grid rebuild, _validate_cell_coords growth (reached only by the oracle).",
-    "technique": "Lean 4 proof (bit-level arithmetic, list induction) + differential correspondence + end-to-end oracle",
+            "(and EPOCH + timedelta for the date domain); protobuf / snappy / zip round-trip (C05). In table_roundtrip the "
+            "payload of a number / date / bool / duration cell is the bytes the packers produce (value <-> bytes is "
+            "d128_roundtrip resp. assumed), the reader's is_merge_reference is a parameter required to name exactly the merged "
+            "placeholders (the merge map's own round trip is C12), the two style look-ups at the top of _to_buffer, row / column "
+            "headers and update_cell_styles are outside (C15/C16), rich-text payload look-up (table_rich_text) is outside; "
+            "saveRow encodes a row's cells before laying them out, so for a non-rectangular grid that also holds an unpackable "
+            "id the exception class may differ from Python's (IndexError vs struct.error) - no exception at all under the "
+            "theorem's hypotheses. Not modelled: _validate_cell_coords growth / Cell._from_value dispatch (C03 grid model and the "
+            "end-to-end oracle).",
+    "technique": "Lean 4 proof (bit-level arithmetic, list induction, state invariant of the string list, refinement of the "
+                 "dict-based row map) + differential correspondence on real saved objects + end-to-end oracle",
 }
 ASSUMPTIONS = [
     "float(str) / repr(float) are correctly rounded inverses on <=15-significant-digit decimals (CPython)",
@@ -648,6 +671,20 @@ def saved_objects(model, table_id):
             "strings": [(e.key, e.refcount, e.string) for e in dl.entries], "tiles": tiles}
 
 
+def save_request(table, wide_before: bool) -> str:
+    """`table save` for the in-memory grid of a table (taken after the save: style ids are assigned by `_to_buffer`);
+    `wide_before` is `should_use_wide_rows` before the save (the save only ever sets it)."""
+    req = ["table", "save", str(int(wide_before)), str(len(table._data))]
+    for row in table._data:
+        req.append(str(len(row)))
+        req += [tcell_token(c) for c in row]
+    return " ".join(req)
+
+
+def wide_rows_flag(model, table_id) -> bool:
+    return bool(model.objects[table_id].base_data_store.tiles.should_use_wide_rows)
+
+
 def saved_line(o) -> str:
     """canonical one-line form of the saved objects = the reply format of `table save`."""
     w = [str(o["rows"]), str(o["cols"]), str(o["tile_size"]), str(int(o["wide_rows"])), str(o["next_list_id"]),
@@ -812,10 +849,79 @@ def pipeline_docs(ctx: Ctx):
     return docs
 
 
+PERTURBATIONS = ("drop-row-info", "more-rows-and-columns", "fewer-columns", "blank-record", "pre-bnc-tile", "drop-string",
+                 "tile-size-0", "reverse-row-infos")
+
+
+def perturbed_loads(ctx: Ctx, path: str, desc: str, req, out, dsc):
+    """read-path arms the API-built files never reach (rows without a row-info, positions beyond the stored columns →
+    `Cell._empty_cell`; a string key without an entry → ''; `tile_size` 0; a tile not `last_saved_in_BNC`): load the saved
+    file into a fresh model, edit the TST objects in the object store, run the real `Table.__init__`, and give the very
+    same objects to the model's `loadTable`."""
+    from array import array
+    from pathlib import Path
+
+    from numbers_parser.document import Table
+    from numbers_parser.model import _NumbersModel
+    rng = ctx.rng
+    for kind in PERTURBATIONS:
+        with warnings.catch_warnings():
+            warnings.simplefilter("ignore")
+            m = _NumbersModel(Path(path))
+            tid = m.table_ids()[0]
+            tm = m.objects[tid]
+            bds = tm.base_data_store
+            tiles = [m.objects[t.tile.identifier] for t in bds.tiles.tiles]
+            dl = m.objects[bds.stringTable.identifier]
+            if kind == "drop-row-info":
+                tile = rng.choice(tiles)
+                if len(tile.rowInfos) == 0:
+                    continue
+                del tile.rowInfos[rng.randrange(len(tile.rowInfos))]
+            elif kind == "more-rows-and-columns":
+                tm.number_of_rows += 2
+                tm.number_of_columns += 2
+            elif kind == "fewer-columns":
+                if tm.number_of_columns < 2:
+                    continue
+                tm.number_of_columns -= 1
+            elif kind == "blank-record":
+                cands = [(r, i) for t in tiles for r in t.rowInfos for i, o in enumerate(array("h", r.cell_offsets)) if o >= 0]
+                if not cands:
+                    continue
+                r, i = rng.choice(cands)
+                offs = array("h", r.cell_offsets)
+                offs[i] = -1
+                r.cell_offsets = offs.tobytes()
+            elif kind == "pre-bnc-tile":
+                tiles[-1].last_saved_in_BNC = False
+            elif kind == "drop-string":
+                if len(dl.entries) == 0:
+                    continue
+                del dl.entries[rng.randrange(len(dl.entries))]
+            elif kind == "tile-size-0":
+                bds.tiles.tile_size = 0
+            elif kind == "reverse-row-infos":
+                tile = tiles[0]
+                infos = [type(r).FromString(r.SerializeToString()) for r in tile.rowInfos]
+                del tile.rowInfos[:]
+                tile.rowInfos.extend(reversed(infos))
+            objs = saved_objects(m, tid)
+            mc = m.merge_cells(tid)
+            refs = sorted(rc for rc in mc._references if mc.is_merge_reference(rc))
+            req.append(load_request(objs, refs))
+            dsc.append(f"table load <{desc}: saved TST objects after '{kind}'>")
+            try:
+                out.append(grid_line_impl(Table(m, tid)))
+            except Exception as e:  # noqa: BLE001
+                out.append("err " + exc_name(e))
+            ctx.mark(("pipeline-perturbed", desc, kind))
+
+
 def check_pipeline(ctx: Ctx):
     import numbers_parser
     rng = ctx.rng
-    req_s, out_s, dsc_s, req_l, out_l, dsc_l = [], [], [], [], [], []
+    req_s, out_s, dsc_s, req_l, out_l, dsc_l, req_p, out_p, dsc_p = [], [], [], [], [], [], [], [], []
     for desc, nr, nc, writes, merges, styled in pipeline_docs(ctx):
         with warnings.catch_warnings():
             warnings.simplefilter("ignore")
@@ -837,6 +943,7 @@ def check_pipeline(ctx: Ctx):
             inp = {"pipeline": True, "desc": desc, "rows": nr, "cols": nc, "merges": merges, "styled": styled,
                    "writes": [[r, c, jvalue(v)] for r, c, v in writes[:400]]}
             d = tempfile.mkdtemp(prefix="c01p-")
+            wide_before = wide_rows_flag(doc._model, table._table_id)
             try:
                 try:
                     path = os.path.join(d, "t.numbers")
@@ -846,15 +953,14 @@ def check_pipeline(ctx: Ctx):
                 except Exception as e:  # noqa: BLE001
                     ctx.violation("save-reopen-raises", f"save/reopen of '{desc}' raised {exc_name(e)}: {e}", inp)
                     continue
+                if nr * nc <= 2000:
+                    perturbed_loads(ctx, path, desc, req_p, out_p, dsc_p)
             finally:
                 shutil.rmtree(d, ignore_errors=True)
             # the model's input: the in-memory grid as it is after the save (style ids assigned by `_to_buffer`)
-            req = ["table", "save", str(len(table._data))]
-            for row in table._data:
-                req.append(str(len(row)))
-                req += [tcell_token(c) for c in row]
+            req = save_request(table, wide_before)
             objs = saved_objects(doc2._model, t2._table_id)      # read back from the file with the library's IWA reader
-            req_s.append(" ".join(req))
+            req_s.append(req)
             out_s.append(saved_line(objs))
             dsc_s.append(f"table save <{desc}: in-memory grid of {nr}x{nc} cells after Document.save>")
             mc = doc2._model.merge_cells(t2._table_id)
@@ -892,6 +998,8 @@ def check_pipeline(ctx: Ctx):
                     req_s, out_s, describe=dsc_s)
     correspond_long(ctx, "Table.__init__ on the saved file vs loadTable on the same TST objects",
                     req_l, out_l, fmap=grid_line_model, describe=dsc_l)
+    correspond_long(ctx, "Table.__init__ vs loadTable on saved objects edited in the store (missing row-infos / records / "
+                         "strings, larger declared size, tile_size 0, pre-BNC tile)", req_p, out_p, fmap=grid_line_model, describe=dsc_p)
 
 
 def run(ctx: Ctx):
